@@ -105,6 +105,15 @@ def run(chk):
                 continue
             cases.append('dict-zero-repeat-offset')
             lines.append('dict=%s src=%s %s src=%s I Ba C' % (hexs(dz), hexs(f['frame']), rng.choice(['I B?a C', 'I B?b1 B?b1 B?a C', 'A100000', 'SI Zs,500']), hexs(good)))
+    # a rejected FSE table description, then a block that REPEATS that table -- in the same frame (the caller keeps
+    # calling after the error) and in the next frame of a re-used decoder (finding F13)
+    for first, second, label in synth.make_broken_table_then_repeat(rng, 90 if thorough else 36):
+        cases.append(label + '+in-frame')
+        lines.append('src=%s I B?b1 B?b1 B?b1 B?b1 B?b1 src=%s I Ba C' % (hexs(first), hexs(good)))
+        cases.append(label + '+reused')
+        lines.append('src=%s I B?a src=%s I B?a C src=%s I Ba C' % (hexs(first), hexs(second), hexs(good)))
+        cases.append(label + '+reused-decode-all')
+        lines.append('src=%s A100000 src=%s A100000 src=%s I Ba C' % (hexs(first), hexs(second), hexs(good)))
     # implementation, both builds, with a deadline per batch; model
     outs = {}
     nhang = 0
